@@ -75,6 +75,7 @@ type Contract struct {
 	Ghosts     []GhostUpdate
 	ElemFacts  []ElemFact
 	Inline     bool            // callee is inlined at call sites instead of using the contract
+	BitVector  bool            // body verified in bit-vector mode (bv.go)
 	Wraps      [][2]string     // (result, arg): the result reads / writes through arg (calls its methods)
 	Effect     bool            // the callee has an externally visible effect (file write, truncate, ...)
 	EffectReqs []Clause        // obligations at every call to an effectful callee
@@ -344,6 +345,8 @@ func parseContractText(lines []string, file string, pkgPath string, voc *Vocab) 
 		}
 		cur.Lines++
 		switch word {
+		case "bitvector":
+			cur.BitVector = true
 		case "trusted":
 			cur.Trusted = true
 			if rest != "" {
